@@ -3,5 +3,5 @@ Require Extraction.
 Require Import ExtrOcamlBasic.
 From Verif Require Import Lib.Base Model.Resolver.
 Extraction "model.ml"
-  resolve_order resolve_cut resolve cutoff seed_oracle ordered_funcs
+  resolve_order resolve_cut resolve resolve_impl name_order_oracle cutoff seed_oracle ordered_funcs
   func_info compile_check wf flat_events constraints.
